@@ -37,6 +37,7 @@ class CFG:
         self.err_exit = self.new("exit", note="raise/err").id  # raise / `?` error / panic
         self._idom: dict[int, int] | None = None
         self._site_index: dict[int, int] = {}
+        self.exc_edges: set[tuple[int, int]] = set()   # "may raise into handler" edges (Python try bodies)
 
     def new(self, kind: str, ast_: Any = None, guard: tuple | None = None, line: int = 0, note: str = "") -> Node:
         n = Node(len(self.nodes), kind, ast_, guard, line, note)
@@ -128,7 +129,7 @@ class CFG:
         """Guards (atom, polarity, origin) on edges that dominate node n (outermost first)."""
         return [self.nodes[d].guard for d in reversed(self.dominators(n)) if self.nodes[d].kind == "guard"]
 
-    def reachable_from(self, src: int, avoid: Iterable[int] = ()) -> set[int]:
+    def reachable_from(self, src: int, avoid: Iterable[int] = (), follow_exc: bool = True) -> set[int]:
         avoid = set(avoid)
         seen = set()
         stack = [src]
@@ -137,7 +138,10 @@ class CFG:
             if n in seen or n in avoid:
                 continue
             seen.add(n)
-            stack.extend(self.succ[n])
+            for s_ in self.succ[n]:
+                if not follow_exc and (n, s_) in self.exc_edges:
+                    continue
+                stack.append(s_)
         return seen
 
     def is_reachable(self, n: int) -> bool:
@@ -249,6 +253,7 @@ class _PyBuilder:
         # anything may raise into the innermost handler
         if self.handlers:
             self.g.edge(n.id, self.handlers[-1])
+            self.g.exc_edges.add((n.id, self.handlers[-1]))
         return n.id
 
     def block(self, body: list[ast.stmt], cur: int | None, loops: list[_Loop]) -> int | None:
@@ -412,6 +417,21 @@ def build_rs(fn_node: dict, name: str = "") -> CFG:
     g = CFG("rs", name or fn_node.get("name", ""))
     b = _RsBuilder(g)
     end = b.block(fn_node["body"], g.entry, [])
+    if end is not None:
+        g.edge(end, g.exit)
+    g.index_sites()
+    return g
+
+
+def build_rs_closure(closure: dict, name: str = "") -> CFG:
+    """CFG of a closure body (`return` leaves the closure)."""
+    g = CFG("rs", name or f"closure@{closure.get('ln')}")
+    b = _RsBuilder(g)
+    body = closure["body"]
+    if body.get("k") == "block":
+        end = b.block(body, g.entry, [])
+    else:
+        end = b.expr(body, g.entry, []) if rs_has_cf(body) else b.atom(body, g.entry)
     if end is not None:
         g.edge(end, g.exit)
     g.index_sites()
